@@ -173,6 +173,19 @@ def run(payload):
             fail("earlier_frames_read_on_the_grid_of_a_later_session", grid_of_frame_0=repr(back.grid), stored_on=repr(fa.grid), integral=float(back.integral), integral_stored=float(fa.integral))
     except (ValueError, RuntimeError):
         pass  # refusing the second session is fine
+    # unsorted time stamps (a later session restarted the clock) with every way of leaving a bound of the range open
+    stu = MemoryStorage(write_mode="append")
+    fu = ScalarField(grid, 1.0)
+    for sess in ([5.0, 6.0, 7.0], [0.0, 1.0, 2.0]):
+        stu.start_writing(fu)
+        for tt in sess:
+            stu.append(fu, tt)
+        stu.end_writing()
+    for arg, want in ((None, [5, 6, 7, 0, 1, 2]), (6, [5, 6, 0, 1, 2]), ((None, 6), [5, 6, 0, 1, 2]), ((1, None), [5, 6, 7, 1, 2]), ((1, 6), [5, 6, 1, 2])):
+        cases += 1
+        got = [float(t) for t in (stu.extract_time_range(arg) if arg is not None else stu.extract_time_range()).times]
+        if got != [float(w) for w in want]:
+            fail("open_ended_time_range_on_unsorted_time_stamps", t_range=repr(arg), times_stored=[5, 6, 7, 0, 1, 2], got=got, want=want)
     # storages built from fields: later changes of the source fields (or of frames read back) do not alter the frames
     for collection in (False, True):
         cases += 1
